@@ -100,6 +100,27 @@ impl GenParams {
                 p_root_cons: 0.1,
                 ..b
             },
+            "bigconflict" => GenParams {
+                // long conflict analyses: several learnt clauses take part in the final
+                // level-1 conflict
+                pkgs: (8, 12),
+                cands: (2, 4),
+                p_keep: 0.45,
+                p_allow_empty: 0.0,
+                reqs: (1, 3),
+                p_union: 0.05,
+                p_cons: 0.5,
+                p_missing: 0.0,
+                p_unknown: 0.0,
+                p_lock: 0.0,
+                p_excl: 0.0,
+                p_favored: 0.1,
+                root_reqs: (3, 5),
+                root_full: true,
+                p_root_union: 0.0,
+                p_root_cons: 0.1,
+                ..b
+            },
             "midconflict" => GenParams {
                 pkgs: (5, 7),
                 cands: (2, 3),
@@ -223,6 +244,47 @@ impl GenParams {
                 p_lock: 0.12,
                 ..b
             },
+            "hintcons" => GenParams {
+                // partial availability hints with many constrains entries and several
+                // direct requirements: clauses of hinted candidates are encoded (and
+                // propagate) before the requirements that mention their victims
+                pkgs: (4, 6),
+                cands: (2, 4),
+                p_keep: 0.6,
+                p_allow_empty: 0.0,
+                reqs: (0, 2),
+                p_union: 0.05,
+                p_cons: 0.6,
+                p_missing: 0.0,
+                p_unknown: 0.0,
+                p_lock: 0.0,
+                p_excl: 0.0,
+                hint: HintGen::Random,
+                root_reqs: (2, 4),
+                root_full: true,
+                p_root_union: 0.0,
+                p_root_cons: 0.0,
+                ..b
+            },
+            "softeager" => GenParams {
+                // soft requirements on top of a conflict-free hard problem, with every
+                // candidate's dependencies hinted as available (eager encoding while the
+                // soft requirement is installed) and many constrains entries on the
+                // lower-ranked candidates
+                pkgs: (3, 6),
+                cands: (2, 3),
+                soft: (1, 3),
+                hint: HintGen::All,
+                p_keep: 0.5,
+                p_allow_empty: 0.0,
+                p_cons: 0.5,
+                p_missing: 0.0,
+                p_unknown: 0.0,
+                p_lock: 0.0,
+                p_excl: 0.0,
+                p_top: 0.7,
+                ..b
+            },
             "cyclic" => GenParams {
                 pkgs: (2, 5),
                 cands: (1, 3),
@@ -322,6 +384,24 @@ impl GenParams {
                 p_cons: 0.1,
                 ..b
             },
+            "tune" => {
+                // generator tuning only (driver/scan.py): parameters from VH_TUNE =
+                // "pkgs_lo,pkgs_hi,cands_lo,cands_hi,p_keep,reqs_lo,reqs_hi,p_cons,root_lo,root_hi"
+                let t: Vec<f64> = std::env::var("VH_TUNE")
+                    .expect("VH_TUNE")
+                    .split(',')
+                    .map(|x| x.parse().unwrap())
+                    .collect();
+                GenParams {
+                    pkgs: (t[0] as u32, t[1] as u32),
+                    cands: (t[2] as u32, t[3] as u32),
+                    p_keep: t[4],
+                    reqs: (t[5] as u32, t[6] as u32),
+                    p_cons: t[7],
+                    root_reqs: (t[8] as u32, t[9] as u32),
+                    ..Self::profile("bigconflict")
+                }
+            }
             _ => panic!("unknown profile {name}"),
         }
     }
